@@ -92,6 +92,10 @@ def gen_wsdl():
             and c.func.attr == "get" and len(c.args) == 2 and isinstance(c.args[0], ast.Constant) and c.args[0].value == "style"
             and isinstance(c.args[1], ast.Constant)]
     _one(len(dflt) == 1, "map_binding_operation: config.get('style', <default>)")
+    sdflt = [c.args[1].value for c in ast.walk(fn) if isinstance(c, ast.Call) and isinstance(c.func, ast.Attribute)
+             and c.func.attr == "setdefault" and len(c.args) == 2 and isinstance(c.args[0], ast.Constant)
+             and c.args[0].value == "style" and isinstance(c.args[1], ast.Constant)]
+    _one(sdflt == dflt, "map_binding_operation: config.setdefault('style', <the same default>)")
     # map_binding_operation_messages: suffixes and the rpc test
     fn = _func(m, C, "map_binding_operation_messages")
     ss = _strs(fn)
